@@ -137,6 +137,23 @@ def po_period_first(S):
     S.check("never-retired", not trig.is_out_date(mk_time(t0)))
 
 
+@proof("C18", "PeriodTrigger,PeriodsTrigger/defaults:no-delay,not-immediately", strength="S", shapes=PERIODS, config=MODELS)
+def po_period_defaults(S):
+    """'after an OPTIONAL delay (and immediately IF REQUESTED)': constructed without the two options the trigger has no delay and does
+       not fire on the first bar — the first due time is start + period."""
+    d = S.shape["delta"]
+    t0 = S.int("t0", 0, HORIZON)
+    trig = tg.PeriodTrigger(mk_delta(d), _noop)
+    r = trig.when(snap(mk_time(t0)))
+    S.check("single:does-not-fire-on-the-first-bar", r == False)
+    S.check("single:first-due-time==start+period", (trig._next_match - mk_time(0)) // mk_delta(1) == t0 + d)
+    trigs = tg.PeriodsTrigger([mk_delta(d), mk_delta(d + 1)], _noop)
+    r2 = trigs.when(snap(mk_time(t0)))
+    S.check("several:does-not-fire-on-the-first-bar", r2 == False)
+    S.check("several:first-due-times==start+period", (trigs._next_matches[0] - mk_time(0)) // mk_delta(1) == t0 + d
+            and (trigs._next_matches[1] - mk_time(0)) // mk_delta(1) == t0 + d + 1)
+
+
 @proof("C18", "PeriodTrigger/later-call-on-any-later-bar", strength="S", shapes=PERIODS, config=MODELS,
        covers=["on-due-time", "between-due-times", "grid-skipped-a-due-time"])
 def po_period_step(S):
